@@ -37,7 +37,7 @@ def regenerate(ctx):
 
 
 RULE = ('random typed expression trees (depth <= 6 quick / <= 9 thorough) plus the systematic '
-        'enumeration (leaf op1) op2 of all two-level combinations, over leaves {Matrix, Scaling, '
+        'enumeration (leaf op1) op2 of the two-level combinations (all level-1 forms; a seed-chosen sample of the level-2 forms: 5-8 % quick, 10 % thorough), over leaves {Matrix, Scaling, '
         'Identity, Power 2/3, InnerProduct, linear Functional, L2NormSquared, Constant, Zero} on '
         'rn(2), rn(3), cn(2), cn(3); scalars {0, +-1, +-2, +-1/2, 3, (1j, 1+1j)}; values on the '
         'dyadic grid. Non-trivial = the expression builds and its value at the sample point is '
@@ -77,6 +77,8 @@ ASSUMPTIONS = ['EnvOK: a leaf flagged is_linear is additive and homogeneous for 
                'dispatch between a leaf and an expression object)']
 
 EXACT_BITS = 45
+INPX_FRACTION = 0.34
+LEVEL2_KEEP_THOROUGH = 0.10
 
 
 # ---------------------------------------------------------------------------
@@ -1143,7 +1145,7 @@ def systematic_cases(ctx, pool, cplx, leaf_kinds):
             if ty1 is None or ty1[0] == 'F':
                 continue
             twos = level_forms(rng, pool, cplx, one, ty1)
-            keep = (0.05 if cplx else 0.08) if ctx.quick else 0.25
+            keep = (0.05 if cplx else 0.08) if ctx.quick else LEVEL2_KEEP_THOROUGH
             twos = [t for t in twos if rng.random() < keep]
             for two in twos:
                 if degree(two, pool) > 12:
@@ -1548,8 +1550,9 @@ def line_of(case, pool):
     used = sorted(used_leaves(case['ast']))
     case['local'] = used
     ren = {g: i for i, g in enumerate(used)}
-    return 'expr leaves={} e={} x={}'.format('|'.join(pool[g].spec for g in used),
-                                            '|'.join(rpn(case['ast'], ren)), cl(case['x']))
+    return 'expr leaves={} e={} x={} ix={}'.format('|'.join(pool[g].spec for g in used),
+                                                  '|'.join(rpn(case['ast'], ren)), cl(case['x']),
+                                                  int(case.get('ix', True)))
 
 
 def describe(case, pool):
@@ -1611,6 +1614,9 @@ def process(ctx, cases, pool, spaces, pool_ids, count=True):
         c['psample'] = ctx.rng.random() if (ctx.quick and c['stream'] in ('level2', 'random')) \
             else 0.0
         c['hit'] = ctx.hit if count else None
+        # the extracted in-place programs (`inpx`, a second full evaluation in the driver) are run
+        # on every quick case and on a seed-chosen third of the level2 cases of the thorough tier
+        c['ix'] = ctx.quick or c['stream'] != 'level2' or ctx.rng.random() < INPX_FRACTION
         with np.errstate(all='ignore'):
             reals.append(run_real(c, pool, spaces, pool_ids))
         lines.append(line_of(c, pool))
@@ -1679,8 +1685,12 @@ def process(ctx, cases, pool, spaces, pool_ids, count=True):
                 # the in-place branch as EXTRACTED (statement lists interpreted by runInBy, with
                 # junk in `out` and in the temporaries) against the real in-place call
                 got = real.get('inp')
-                if not (got is None or got == 'undefined' or None in got or
-                        real.get('ref') == 'undefined'):
+                if f['inpx'] == 'skip':
+                    f['inpx'] = f['val']
+                    if count:
+                        ctx.hit('inplace-prog/not-sampled')
+                elif not (got is None or got == 'undefined' or None in got or
+                          real.get('ref') == 'undefined'):
                     root = (real.get('tree') or '').split('(')[0]
                     if not same(got, parse_cl(f['inpx']), ex):
                         ctx.disagree(desc, 'in-place value of the real object {}'.format(showv(got)),
@@ -1996,6 +2006,346 @@ def leafclass_stream(ctx, count=True, deadline=None):
             return
 
 
+# ---------------------------------------------------------------------------
+# stream `derived`: the parts of the algebra table that are reached through properties and
+# methods rather than operators: `+A`, the `.inverse` of scalar / vector multiples and
+# compositions ((a*A)^-1 = A^-1 * (1/a), (A*a)^-1 = (1/a) * A^-1, (A*B)^-1 = B^-1 * A^-1,
+# (v*A)^-1 = A^-1 * (1/v), (A*v)^-1 = (1/v) * A^-1), `f.translated(v)(x) = f(x - v)` (merged
+# when repeated), FunctionalQuadraticPerturb, the `.functional` accessors.  Oracle only (the Lean
+# model has no inverse / translation): the documented rule applied recursively to exact data.
+
+def _num(v):
+    return complex(v) if 'j' in v else float(v)
+
+
+def d_build(a, sp, ShiftBy):
+    """invertible expression AST -> real object"""
+    import odl
+    k = a[0]
+    if k == 'S':
+        return odl.ScalingOperator(sp, a[1])
+    if k == 'I':
+        return odl.IdentityOperator(sp)
+    if k == 'T':
+        return ShiftBy(sp.element(a[1]))
+    if k == 'lmul':
+        return a[1] * d_build(a[2], sp, ShiftBy)
+    if k == 'rmul':
+        return d_build(a[1], sp, ShiftBy) * a[2]
+    if k == 'div':
+        return d_build(a[1], sp, ShiftBy) / a[2]
+    if k == 'neg':
+        return -d_build(a[1], sp, ShiftBy)
+    if k == 'pos':
+        return +d_build(a[1], sp, ShiftBy)
+    if k == 'comp':
+        return d_build(a[1], sp, ShiftBy) * d_build(a[2], sp, ShiftBy)
+    if k == 'lvec':
+        return sp.element(a[1]) * d_build(a[2], sp, ShiftBy)
+    if k == 'rvec':
+        return d_build(a[1], sp, ShiftBy) * sp.element(a[2])
+    if k == 'pow':
+        return d_build(a[1], sp, ShiftBy) ** a[2]
+    raise ValueError(k)
+
+
+def d_fwd(a, x):
+    k = a[0]
+    if k == 'S':
+        return a[1] * x
+    if k == 'I':
+        return x
+    if k == 'T':
+        return x + np.array(a[1])
+    if k == 'lmul':
+        return a[1] * d_fwd(a[2], x)
+    if k == 'rmul':
+        return d_fwd(a[1], a[2] * x)
+    if k == 'div':
+        return d_fwd(a[1], x / a[2])
+    if k == 'neg':
+        return -d_fwd(a[1], x)
+    if k == 'pos':
+        return d_fwd(a[1], x)
+    if k == 'comp':
+        return d_fwd(a[1], d_fwd(a[2], x))
+    if k == 'lvec':
+        return np.array(a[1]) * d_fwd(a[2], x)
+    if k == 'rvec':
+        return d_fwd(a[1], np.array(a[2]) * x)
+    if k == 'pow':
+        for _ in range(a[2]):
+            x = d_fwd(a[1], x)
+        return x
+    raise ValueError(k)
+
+
+def d_inv(a, y):
+    """the documented inverse rules, recursively"""
+    k = a[0]
+    if k == 'S':
+        return y / a[1]
+    if k == 'I':
+        return y
+    if k == 'T':
+        return y - np.array(a[1])
+    if k == 'lmul':
+        return d_inv(a[2], y / a[1])
+    if k == 'rmul':
+        return d_inv(a[1], y) / a[2]
+    if k == 'div':
+        return d_inv(a[1], y) * a[2]
+    if k == 'neg':
+        return d_inv(a[1], -y)
+    if k == 'pos':
+        return d_inv(a[1], y)
+    if k == 'comp':
+        return d_inv(a[2], d_inv(a[1], y))
+    if k == 'lvec':
+        return d_inv(a[2], y / np.array(a[1]))
+    if k == 'rvec':
+        return d_inv(a[1], y) / np.array(a[2])
+    if k == 'pow':
+        for _ in range(a[2]):
+            y = d_inv(a[1], y)
+        return y
+    raise ValueError(k)
+
+
+def d_gen(rng, n, cplx, depth):
+    def sc():
+        if cplx and rng.random() < 0.4:
+            return rng.choice([1j, -1j, 2j, -0.5j])
+        return rng.choice([2.0, -1.0, 0.5, 4.0, -2.0, -0.5, 2, -1])
+
+    def vec():
+        return [sc() for _ in range(n)]
+    if depth == 0 or rng.random() < 0.2:
+        r = rng.random()
+        if r < 0.4:
+            return ('S', sc())
+        if r < 0.55:
+            return ('I',)
+        return ('T', [rng.choice([1.0, -2.0, 0.5, 3.0]) for _ in range(n)])
+    k = rng.choice(['lmul', 'rmul', 'rmul', 'div', 'neg', 'pos', 'comp', 'comp', 'lvec', 'rvec',
+                    'rvec', 'pow'])
+    sub = d_gen(rng, n, cplx, depth - 1)
+    if k == 'lmul':
+        return ('lmul', sc(), sub)
+    if k in ('rmul', 'div'):
+        return (k, sub, sc())
+    if k in ('neg', 'pos'):
+        return (k, sub)
+    if k == 'comp':
+        return ('comp', sub, d_gen(rng, n, cplx, depth - 1))
+    if k == 'lvec':
+        return ('lvec', vec(), sub)
+    if k == 'rvec':
+        return ('rvec', sub, vec())
+    return ('pow', sub, rng.choice([1, 2]))
+
+
+def _shiftby_class():
+    import odl
+
+    class ShiftBy(odl.Operator):
+        """x -> x + b: invertible, NOT linear (so that `A * a` stays an OperatorRightScalarMult)"""
+
+        def __init__(self, b):
+            super(ShiftBy, self).__init__(b.space, b.space, linear=False)
+            self.b = b
+
+        def _call(self, x):
+            return x + self.b
+
+        @property
+        def inverse(self):
+            return ShiftBy(-self.b)
+    return ShiftBy
+
+
+def _ex(v):
+    if isinstance(v, np.ndarray):
+        return [exact(c) for c in v.ravel().tolist()]
+    return [exact(c) for c in flat(v)]
+
+
+def run_derived_inverse(a, n, cplx, x, y):
+    """(problems, root class) for one invertible expression; real code + documented rules only"""
+    import odl
+    sp = (odl.cn if cplx else odl.rn)(n)
+    problems, root = [], None
+    try:
+        with np.errstate(all='ignore'):
+            op = d_build(a, sp, _shiftby_class())
+            root = type(op).__name__
+            xa, ya = np.array(x, dtype=complex if cplx else float), \
+                np.array(y, dtype=complex if cplx else float)
+            want_f, want_i = _ex(d_fwd(a, xa)), _ex(d_inv(a, ya))
+            if None in want_f or None in want_i:
+                return [], None
+            got_f = _ex(op(sp.element(x)))
+            if got_f != want_f:
+                problems.append('value {} differs from the documented table value {}'.format(
+                    showv(got_f), showv(want_f)))
+            inv = op.inverse
+            got_i = _ex(inv(sp.element(y)))
+            if got_i != want_i:
+                problems.append('inverse: op.inverse(y) = {} differs from the documented inverse '
+                                '{}'.format(showv(got_i), showv(want_i)))
+            back = _ex(inv(op(sp.element(x))))
+            if back != _ex(xa):
+                problems.append('inverse: op.inverse(op(x)) = {} is not x'.format(showv(back)))
+            out = sp.element()
+            out.data[...] = np.nan
+            inv(sp.element(y), out=out)
+            if _ex(out) != want_i:
+                problems.append('inverse: in-place op.inverse(y, out=) = {} differs from the '
+                                'documented inverse {}'.format(showv(_ex(out)), showv(want_i)))
+            again = _ex(inv.inverse(sp.element(x)))
+            if again != want_f:
+                problems.append('inverse: op.inverse.inverse(x) = {} differs from op(x) = {}'.format(
+                    showv(again), showv(want_f)))
+            if (inv.domain, inv.range) != (op.range, op.domain):
+                problems.append('domain/range of the inverse are not range/domain of the operator')
+    except Exception as e:  # noqa
+        problems.append('inverse: raises {}: {}'.format(type(e).__name__, str(e)[:160]))
+    return problems, root
+
+
+def run_derived_functional(kind, n, cplx, x, v, w, c):
+    """translated / quadratic perturbation / accessors of Functional expression objects"""
+    import odl
+    from odl.solvers.functional.functional import FunctionalTranslation
+    sp = (odl.cn if cplx else odl.rn)(n)
+    problems, hits = [], []
+    try:
+        with np.errstate(all='ignore'):
+            l2 = odl.solvers.L2NormSquared(sp)
+            A = odl.ScalingOperator(sp, 2.0)
+            base = {'l2sq': l2, 'lscal': c * l2, 'rscal': l2 * c, 'sum': l2 + c,
+                    'comp': l2 * A, 'fsum': l2 + l2 * c,
+                    'rvec': l2 * sp.element(w), 'const': odl.solvers.ConstantFunctional(sp, c)}[kind]
+            xe, ve, we = sp.element(x), sp.element(v), sp.element(w)
+            t1 = base.translated(ve)
+            if not isinstance(t1, FunctionalTranslation) or t1.is_linear or t1.domain != sp:
+                problems.append('translated: not a nonlinear FunctionalTranslation on the domain')
+            if _ex(t1(xe)) != _ex(base(xe - ve)):
+                problems.append('translated: f.translated(v)(x) = {} differs from f(x - v) = {}'.format(
+                    t1(xe), base(xe - ve)))
+            hits.append('derived/translated')
+            t2 = t1.translated(we)
+            if _ex(t2(xe)) != _ex(base(xe - ve - we)):
+                problems.append('translated twice: f.translated(v).translated(w)(x) = {} differs '
+                                'from f(x - v - w) = {}'.format(t2(xe), base(xe - ve - we)))
+            if t2.functional is not base or _ex(t2.translation) != _ex(ve + we):
+                problems.append('translated twice: translations not merged into (f, v + w)')
+            hits.append('derived/translated-twice')
+            # the table on a translated functional: (g * a)(x) = g(a x), (a * g)(x) = a g(x)
+            g = t1 * 2.0
+            if _ex(g(xe)) != _ex(base(2.0 * xe - ve)):
+                problems.append('translated: (f.translated(v) * 2)(x) differs from f(2x - v)')
+            g = 2.0 * t1 + 1.0
+            if _ex(g(xe)) != _ex(2.0 * base(xe - ve) + 1.0):
+                problems.append('translated: (2 * f.translated(v) + 1)(x) differs from 2 f(x-v) + 1')
+            # f + a||x||^2 + <x, u> + c
+            q = odl.solvers.FunctionalQuadraticPerturb(base, quadratic_coeff=2.0, linear_term=we,
+                                                       constant=c)
+            want = base(xe) + 2.0 * xe.inner(xe) + xe.inner(we) + c
+            if _ex(q(xe)) != _ex(want):
+                problems.append('quadratic perturbation: value {} differs from f(x) + a<x,x> + <x,u> '
+                                '+ c = {}'.format(q(xe), want))
+            if q.functional is not base or q.quadratic_coeff != 2.0 or q.constant != c or \
+                    _ex(q.linear_term) != _ex(we):
+                problems.append('quadratic perturbation: accessors do not return the arguments')
+            hits.append('derived/quadratic-perturb')
+            # accessors of the scalar / vector multiples
+            if kind == 'lscal' and c != 0 and base.functional is not l2:
+                problems.append('accessor: (c * f).functional is not f')
+            if kind == 'rscal' and c != 0 and base.functional is not l2:
+                problems.append('accessor: (f * c).functional is not f')
+            if kind == 'rvec' and base.functional is not l2:
+                problems.append('accessor: (f * v).functional is not f')
+            if kind in ('lscal', 'rscal', 'rvec') and c != 0:
+                hits.append('derived/accessor-functional')
+    except Exception as e:  # noqa
+        problems.append('derived functional: raises {}: {}'.format(type(e).__name__, str(e)[:160]))
+    return problems, hits
+
+
+def derived_stream(ctx, count=True, deadline=None):
+    import time
+    import odl
+    n_inv = 150 if ctx.quick else 1500
+    for cplx in (False, True):
+        field = 'complex' if cplx else 'real'
+        for it in range(n_inv):
+            n = ctx.rng.choice([2, 3])
+            a = d_gen(ctx.rng, n, cplx, ctx.rng.choice([1, 2, 2, 3]))
+            x, y = rand_point(ctx.rng, n, cplx), rand_point(ctx.rng, n, cplx)
+            problems, root = run_derived_inverse(a, n, cplx, x, y)
+            desc = {'stream': 'derived', 'what': 'inverse', 'dast': repr(a), 'n': n, 'field': field,
+                    'x': [str(v) for v in x], 'y': [str(v) for v in y]}
+            for p in problems:
+                PENDING.append((len(repr(a)), len(PENDING), '{} derived root={} class={} field={}'.format(
+                    'inverse;' if p.startswith('inverse') else 'value;', a[0], root, field),
+                    '{} :: {}'.format(a, p)[:700], desc))
+            if count:
+                ctx.case(('derived', a[0], root, cplx) if root else None)
+                ctx.hit('stream/derived')
+                if root:
+                    ctx.hit('derived/inverse/' + root)
+                if a[0] == 'pos':
+                    ctx.hit('derived/pos')
+            else:
+                ctx.evaluations += 1
+        # `+A is A`; a zero scalar multiple has no inverse
+        sp = (odl.cn if cplx else odl.rn)(2)
+        A = odl.ScalingOperator(sp, 2.0)
+        desc = {'stream': 'derived', 'what': 'fixed', 'field': field}
+        try:
+            if (+A) is not A:
+                PENDING.append((1, len(PENDING), 'value; derived +A field=' + field,
+                                '+A is not A', desc))
+            for z, nm in ((0 * (A * A), 'OperatorLeftScalarMult'),
+                          (_shiftby_class()(sp.one()) * 0, 'OperatorRightScalarMult')):
+                try:
+                    z.inverse
+                    PENDING.append((1, len(PENDING), 'inverse; derived zero scalar class={} field={}'.format(
+                        nm, field), 'the inverse of a zero scalar multiple does not raise', desc))
+                except ZeroDivisionError:
+                    if count:
+                        ctx.hit('derived/inverse-zero-raises')
+        except Exception as e:  # noqa
+            PENDING.append((1, len(PENDING), 'other; derived fixed cases field=' + field,
+                            'raises {}: {}'.format(type(e).__name__, str(e)[:160]), desc))
+        for it in range(40 if ctx.quick else 400):
+            n = ctx.rng.choice([2, 3])
+            kind = ctx.rng.choice(['l2sq', 'lscal', 'rscal', 'sum', 'comp', 'fsum', 'rvec', 'const'])
+            x, v, w = (rand_point(ctx.rng, n, False) for _ in range(3))
+            if cplx:
+                x = [complex(a, ctx.rng.choice([0, 1, -1, 0.5])) for a in x]
+                v = [complex(a, ctx.rng.choice([0, 1, -2])) for a in v]
+            c = ctx.rng.choice([2.0, -1.0, 0.5, 3.0, 0.0])
+            problems, hits = run_derived_functional(kind, n, cplx, x, v, w, c)
+            desc = {'stream': 'derived', 'what': 'functional', 'kind': kind, 'n': n, 'field': field,
+                    'x': [str(a) for a in x], 'v': [str(a) for a in v], 'w': [str(a) for a in w],
+                    'c': str(c)}
+            for p in problems:
+                PENDING.append((2, len(PENDING), '{}; derived functional kind={} field={}'.format(
+                    p.split(':')[0].replace(' ', '-'), kind, field), '{} :: {}'.format(kind, p)[:700],
+                    desc))
+            if count:
+                ctx.case(('derived-f', kind, cplx))
+                ctx.hit('stream/derived')
+                for h in hits:
+                    ctx.hit(h)
+            else:
+                ctx.evaluations += 1
+        if deadline is not None and (PENDING or time.time() > deadline):
+            return
+
+
 MODEL_BRANCHES = ['class/' + n for n in (
     'OperatorSum', 'FunctionalSum', 'FunctionalScalarSum', 'OperatorVectorSum', 'OperatorComp',
     'FunctionalComp', 'OperatorPointwiseProduct', 'FunctionalProduct', 'FunctionalQuotient',
@@ -2005,7 +2355,15 @@ MODEL_BRANCHES = ['class/' + n for n in (
     'ZeroFunctional')] + ['dispatch/reflected-first-add', 'dispatch/reflected-first-mul', 'raise/OpTypeError', 'raise/TypeError',
                           'skip/div-by-zero-scalar(raised)', 'skip/div-by-zero-scalar(built)',
                           'mixed/well-typed', 'stratum/ownership', 'stratum/history',
-                          'stream/protocol', 'stream/leafclass', 'leafclass/all', 'leafclass/real',
+                          'stream/protocol', 'stream/derived', 'derived/pos',
+                          'derived/inverse-zero-raises', 'derived/translated',
+                          'derived/translated-twice', 'derived/quadratic-perturb',
+                          'derived/accessor-functional',
+                          'derived/inverse/OperatorComp', 'derived/inverse/OperatorLeftScalarMult',
+                          'derived/inverse/OperatorRightScalarMult',
+                          'derived/inverse/OperatorLeftVectorMult',
+                          'derived/inverse/OperatorRightVectorMult',
+                          'stream/leafclass', 'leafclass/all', 'leafclass/real',
                           'leafclass/none', 'leafclass/real-not-complex-homogeneous',
                           'leafclass/none-not-additive'] + ['inplace-prog/' + k for k in (
                               'OperatorSum', 'OperatorVectorSum', 'OperatorComp',
@@ -2045,6 +2403,7 @@ def _run(ctx):
     mixed_stream(ctx)
     protocol_stream(ctx)
     leafclass_stream(ctx)
+    derived_stream(ctx)
 
 
 SEARCH_SECONDS = 50
@@ -2066,6 +2425,9 @@ def search(ctx, broken):
         # ownership / history strata first: a broken pin, lemma or extraction about copies,
         # temporaries or _call bodies shows there
         leafclass_stream(ctx, count=False, deadline=deadline)
+        if PENDING or time.time() > deadline:
+            return
+        derived_stream(ctx, count=False, deadline=deadline)
         if PENDING or time.time() > deadline:
             return
         protocol_stream(ctx, count=False, deadline=deadline)
@@ -2091,6 +2453,19 @@ def search(ctx, broken):
 def replay(ctx, case):
     """Re-run one recorded case on the real code; returns a description if it still fails."""
     import ast as pyast
+    if case.get('stream') == 'derived':
+        cplx = case['field'] == 'complex'
+        if case.get('what') == 'inverse':
+            a = eval(case['dast'], {'__builtins__': {}})
+            problems, _ = run_derived_inverse(a, case['n'], cplx, [_num(v) for v in case['x']],
+                                              [_num(v) for v in case['y']])
+        elif case.get('what') == 'functional':
+            problems, _ = run_derived_functional(
+                case['kind'], case['n'], cplx, [_num(v) for v in case['x']],
+                [_num(v) for v in case['v']], [_num(v) for v in case['w']], float(case['c']))
+        else:
+            return 'fixed derived case: re-run the check'
+        return '; '.join(problems)[:600] if problems else None
     if case.get('stream') == 'leafclass':
         cplx = case['field'] == 'complex'
         if case.get('ctor'):
